@@ -15,9 +15,12 @@
        dns:  new -dns_request-> started -dns_response-> done | -dns_error-> done
    hasResp / hasErr / wsd are the facts a filter can see (flow.response, flow.error, flow.websocket set by the core
    before the hook runs); Marked is the set of flows marked from the beginning.
-   One action per addon entry point: configure (SetFile / SetFilter / Unset), done (Done) and one per hook.   *)
+   One action per addon entry point: configure (SetFile / SetFileBad / SetFilter / Unset), done (Done), one per hook. *)
 EXTENDS Mon_SaveStream, TLC
-CONSTANTS FlowTypes, Marked, Paths, Filters, MaxCfg
+CONSTANTS FlowTypes, Marked, Paths, Filters, MaxCfg,
+          BadPaths,   \* TRUE: the environment may also try to set an unopenable path (SetFileBad)
+          OpenFirst   \* FALSE: the code as it is (old stream dropped before the new file is opened);
+                      \* TRUE: the repaired order proposed in findings_proposed/C39.md
 VARIABLES optFile, filt, stream, curPath, active, files, pc, hasResp, hasErr, wsd, cfg, finished, mon, obs
 vars == <<optFile, filt, stream, curPath, active, files, pc, hasResp, hasErr, wsd, cfg, finished, mon, obs>>
 addon == <<optFile, filt, stream, curPath, active, files, cfg, finished>>
@@ -47,12 +50,14 @@ Matches(fl, f, r, e, w) ==
     [] fl = "unmarked"  -> f \notin Marked                                  \* !~marked
 MatchingSeq(fl, r, e, w) == SelectSeq([i \in F |-> i], LAMBDA f : Matches(fl, f, r, e, w))
 
-\* configure({"save_stream_file"}) with a path: maybe_rotate_to_new_file(); stream.flt = filt
+\* configure({"save_stream_file"}) with a path: maybe_rotate_to_new_file(); assert self.stream; stream.flt = filt
 SetFile(p, app) ==
   /\ Live /\ cfg < MaxCfg /\ cfg' = cfg + 1
   /\ optFile' = p
   /\ IF curPath = p
-     THEN /\ UNCHANGED <<stream, curPath, files>>
+     THEN \* nothing is reopened.  After SetFileBad stream may be 0 here: "assert self.stream" then fails inside the
+          \* configure hook, the addon manager logs it (safecall) and the caller sees a successful option change
+          /\ UNCHANGED <<stream, curPath, files>>
           /\ Emit(<<[k |-> "setfile", path |-> p, append |-> app, new |-> <<>>, trunc |-> FALSE]>>)
      ELSE /\ stream' = p /\ curPath' = p                 \* closes the old stream, opens p with mode "ab" / "wb"
           /\ files' = [files EXCEPT ![p] = IF app THEN @ ELSE "empty"]
@@ -60,26 +65,41 @@ SetFile(p, app) ==
                      trunc |-> ~app /\ files[p] = "nonempty"]>>)
   /\ UNCHANGED <<filt, active, finished>> /\ UNCHANGED facts
 
-\* configure({"save_stream_filter"}): parse; with a file set: maybe_rotate (same path: nothing), stream.flt = filt
+\* configure({"save_stream_file"}) with a path that cannot be opened: maybe_rotate_to_new_file() closes and drops the
+\* old stream BEFORE the failing open; OptionsError; the option manager rolls the option back and re-runs configure,
+\* where current_path (never reset) still equals the old path, so nothing is reopened: stream stays None while the
+\* option says saving is on
+SetFileBad ==
+  /\ Live /\ BadPaths /\ cfg < MaxCfg /\ cfg' = cfg + 1
+  /\ stream' = IF OpenFirst THEN stream ELSE 0
+  /\ UNCHANGED <<optFile, filt, curPath, active, files, finished>> /\ UNCHANGED facts
+  /\ Emit(<<[k |-> "setfile_failed", new |-> <<>>, trunc |-> FALSE]>>)
+
+\* configure({"save_stream_filter"}): parse; with a file set: maybe_rotate (same path: nothing), assert, stream.flt = filt
 SetFilter(fl) ==
   /\ Live /\ cfg < MaxCfg /\ cfg' = cfg + 1 /\ fl # filt
   /\ filt' = fl
   /\ UNCHANGED <<optFile, stream, curPath, active, files, finished>> /\ UNCHANGED facts
-  /\ Emit(<<[k |-> "setfilter", flt |-> fl, new |-> <<>>, trunc |-> FALSE]>>)
+  /\ Emit(<<[k |-> "setfilter", flt |-> fl, new |-> <<>>, trunc |-> FALSE]>>)   \* (same swallowed assert if stream = 0)
 
 \* Save.done(): every active flow goes through the filtered writer, active_flows is cleared, the stream is closed
 StopWith(how) ==
   LET written == SelectSeq([i \in F |-> i], LAMBDA f : f \in active /\ Matches(filt, f, hasResp, hasErr, wsd))
-  IN /\ stream # 0
-     /\ active' = {} /\ stream' = 0 /\ curPath' = 0
-     /\ files' = IF written # <<>> THEN [files EXCEPT ![stream] = "nonempty"] ELSE files
-     /\ Emit(<<[k |-> "stop", how |-> how, matching |-> MatchingSeq(filt, hasResp, hasErr, wsd),
-                new |-> written, trunc |-> FALSE]>>)
+  IN IF stream # 0
+     THEN /\ active' = {} /\ stream' = 0 /\ curPath' = 0
+          /\ files' = IF written # <<>> THEN [files EXCEPT ![stream] = "nonempty"] ELSE files
+          /\ Emit(<<[k |-> "stop", how |-> how, matching |-> MatchingSeq(filt, hasResp, hasErr, wsd),
+                     new |-> written, trunc |-> FALSE]>>)
+     ELSE \* if self.stream: ... is skipped entirely (only after SetFileBad): nothing written, nothing reset
+          /\ UNCHANGED <<active, stream, curPath, files>>
+          /\ Emit(<<[k |-> "stop", how |-> how, matching |-> MatchingSeq(filt, hasResp, hasErr, wsd),
+                     new |-> <<>>, trunc |-> FALSE]>>)
 \* configure({"save_stream_file"}) with None
 Unset == /\ Live /\ cfg < MaxCfg /\ cfg' = cfg + 1 /\ optFile # 0
          /\ optFile' = 0 /\ StopWith("unset") /\ UNCHANGED <<filt, finished>> /\ UNCHANGED facts
 \* the done hook (shutdown)
-Done == /\ Live /\ StopWith("done") /\ finished' = TRUE /\ UNCHANGED <<optFile, filt, cfg>> /\ UNCHANGED facts
+Done == /\ Live /\ optFile # 0 /\ StopWith("done") /\ finished' = TRUE /\ UNCHANGED <<optFile, filt, cfg>>
+        /\ UNCHANGED facts
 
 HookName(f, kind) ==
   LET t == FlowTypes[f]
@@ -154,6 +174,7 @@ FailHook(f) ==
 
 Next == \/ \E p \in Paths, app \in BOOLEAN : SetFile(p, app)
         \/ \E fl \in Filters : SetFilter(fl)
+        \/ SetFileBad
         \/ Unset
         \/ Done
         \/ \E f \in F : StartHook(f)
